@@ -20,7 +20,7 @@ CLAIMS = {
  "C12": ("RequestContext.Next/Abort with a ghost entry log (largest handler index entered, aborted flag): every handler entry has an index strictly greater than all earlier ones and inside the chain and happens only when Abort has not been called; Next returns only with the index past the chain; Abort sets the abort index; unknown handlers are covered by a rely condition that Next and Abort themselves are proved to satisfy; combineHandlers/Use/Group/handle/NoRoute/NoMethod/Engine.Use: the chain registered is a FRESH copy of group middleware followed by the route's handlers, shorter than the abort index, and allNoRoute/allNoMethod are engine middleware followed by the no-route/no-method handlers",
          "assumed: a handler does not call SetHandlers/Reset on the live context; a panic from int8 wrap-around of the chain index is not recovered and followed by >= 127 further Next calls (partial correctness stops at the first panic); len(handlers) < 63 is a precondition of Next (established by combineHandlers); not decided: Engine.ServeHTTP's choice of chain, router lookup (C06)", "3 C12"),
  "C19": ("tracer typestate of Server.Serve (abstract mode: every call that cannot touch the ghost state havocs all real state): DoStart only when no start is outstanding, DoFinish only when exactly one start is outstanding and the stage-event stack is empty, on every path of every iteration including the deferred epilogue and the stage closures; no start outstanding at the loop head and at every return",
-         "assumed: eventStack.push/pop effect on the event depth (three-line functions), sync.Pool.Get returns non-nil, single tracer call sites (scanned: DoStart/DoFinish are called only from Serve); not decided: timestamp ordering inside a pair, the netpoll return-to-poller re-entry", "3 C19"),
+         "assumed: eventStack.push/pop effect on the event depth (three-line functions), sync.Pool.Get returns non-nil; the ghost state is only meaningful for the call sites inside Serve and the closures inlined into it; not decided: timestamp ordering inside a pair, the netpoll return-to-poller re-entry", "3 C19"),
 }
 NA = {
  "C06": "recursive pointer trie with back-pointers, goto/closure backtracking and a recursive priority-match specification; no contract within reach of this tool chain states or decides priority dispatch",
